@@ -612,6 +612,27 @@ package db
 //@ loop 0 invariant[first] firstLoop == (cur(domain, old(domain)) == 0)
 //@ loop 0 invariant[k] fresh(k) && allocated(k) && len(k) >= 2 && k[0] == mtype[0] && k[1] == mtype[1]
 
+// rdbdriver.FindMap, v1 keys: the same probes, collected first and handed to one multi-get (FindFirst answers with the
+// first key of the list that exists -- its own contract, package rdb). Claimed: one key is collected per label
+// boundary of the name, n+1 in all, and each, when it is appended, is <mtype><name from that label on> with "=" for
+// the name itself and "*" for every parent; each is a private copy. Not claimed (attempted; the obligations about
+// the contents of the earlier keys across the byte writes of a later round are solver-erratic, like Batch.integrate):
+// that the list handed to FindFirst still holds those contents -- nothing writes to the private copies, unproved.
+//@ func rdbdriver.FindMap
+//@ flag skip frame
+//@ updates mapProbeKey, mapProbeFound, mapProbeVal
+//@ ghost n int, offs seq, idx seq, roffs seq, ridx seq
+//@ requires wfname(domain, n, offs, idx) && revoffs(domain, n, offs, roffs, ridx) && len(mtype) == 2 && r != nil && r.db != nil && r.db.db != nil && context != nil && dyntype(context) == ptrtag("rdb.Context")
+//@ requires len(exactMatchKeyElement) == 1 && len(wildcardKeyElement) == 1 && !fresh(exactMatchKeyElement) && !fresh(wildcardKeyElement)
+//@ call rdbdriver.findMapInSortedData#0 ghost n = n; offs = offs; idx = idx; roffs = roffs; ridx = ridx
+//@ before RDB.FindFirst#0 assert[all-labels] len(keys) == n + 1
+//@ before assign#8 assert[new-key] mapkey(key, mtype, old(domain), cur(domain, old(domain)), exactMatchKeyElement[0], wildcardKeyElement[0])
+//@ before assign#8 assert[private] fresh(key) && ref(key) != ref(k)
+//@ loop 0 invariant[pos] ref(domain) == ref(old(domain)) && cur(domain, old(domain)) >= 0 && len(domain) == len(old(domain)) - cur(domain, old(domain)) && len(domain) >= 1 && 0 <= idx[cur(domain, old(domain))] && idx[cur(domain, old(domain))] <= n && offs[idx[cur(domain, old(domain))]] == cur(domain, old(domain))
+//@ loop 0 invariant[first] firstLoop == (cur(domain, old(domain)) == 0) && !r.isDataSorted
+//@ loop 0 invariant[k] fresh(k) && allocated(k) && len(k) >= 2 && k[0] == mtype[0] && k[1] == mtype[1]
+//@ loop 0 invariant[count] len(keys) == idx[cur(domain, old(domain))] && r.db == old(r.db) && r.db.db == old(r.db.db)
+
 // ---- C03 / C10: the CDB driver's GetLocationByMap against the DBI contract -----------------------------------
 // An IPv4 client (IP.To4() != nil) is matched only against IPv4 subnets, which are stored v4-mapped with
 // prefix lengths 96..128: the returned prefix length is at least 96, whatever prefix-length set
